@@ -616,6 +616,14 @@ func (sd *SpecAnalyser) compareParams(urlMethod URLMethod, location string, name
 		sd.addDiffs(childLocation, diffs)
 	}
 
+	// the items of an array parameter carry constraints of their own
+	if param1.Items != nil && param2.Items != nil {
+		itemDiffs := sd.CompareProps(&forItems(param1.Items).SchemaProps, &forItems(param2.Items).SchemaProps)
+		if len(itemDiffs) > 0 {
+			sd.addDiffs(childLocation, itemDiffs)
+		}
+	}
+
 	diffs = CheckToFromRequired(param1.Required, param2.Required)
 	if len(diffs) > 0 {
 		sd.addDiffs(childLocation, diffs)
